@@ -263,6 +263,8 @@ impl<T: Send> SchedulerFuture<T> {
             waker:  None
         };
         let result = Arc::new(Mutex::new(result));
+        #[cfg(desync_verif)]
+        result.verif_observe("R", |result| format!("{} {}", match result.result { FutureResultState::None => "none", FutureResultState::Some(Ok(_)) => "ok", FutureResultState::Some(Err(_)) => "canceled", FutureResultState::ReturnedViaFuture => "returned" }, if result.waker.is_some() { "waker" } else { "nowaker" }));
 
         // Insert into a future
         let future = SchedulerFuture {
@@ -333,6 +335,8 @@ impl<T: Send> SchedulerFuture<T> {
 
                 // Create a context to poll in (we may need to reschedule in the background)
                 let waker               = Arc::new(DrainWaker::new());
+                #[cfg(desync_verif)]
+                waker.state.verif_observe("W", |state| match state { DrainWakerState::NotWoken => "notwoken".to_string(), DrainWakerState::Woken => "woken".to_string(), DrainWakerState::WillWakeWithWaker(_) => "willwake".to_string() });
                 let waker_ref           = task::waker_ref(&waker);
                 let mut drain_context   = task::Context::from_waker(&waker_ref);
 
@@ -375,6 +379,8 @@ impl<T: Send> SchedulerFuture<T> {
                             let queue_waker     = task::waker(queue_waker);
 
                             let wake_both       = DoubleWaker(Mutex::new(Some((queue_waker, context_waker))));
+                            #[cfg(desync_verif)]
+                            wake_both.0.verif_observe("D", |wakers| if wakers.is_some() { "armed".to_string() } else { "spent".to_string() });
                             let wake_both       = task::waker(Arc::new(wake_both));
 
                             waker.wake_with(wake_both);
